@@ -241,9 +241,29 @@ def rule_read_is_pure(report, prog):
     report.floor('C02-R6', n, 4)
 
 
+def rule_first_ndef_tlv(report, prog):
+    """R1 (reader side): the zero length that the writer puts on the tag first protects a later reader only if the reader stops at
+    the first NDEF message TLV, empty or not: the `tlv_t == 3` branch of both TLV walks takes the value and leaves the loop
+    unconditionally (bytes behind an empty NDEF TLV are remnants of older messages and must not be parsed as TLVs)."""
+    from ..model import last_live
+    for q in ('nfc.tag.tt1.Type1Tag.NDEF._read_ndef_data', 'nfc.tag.tt2.Type2Tag.NDEF._read_ndef_data'):
+        f = prog.func(q)
+        br = [i for i in ast.walk(f.node) if isinstance(i, ast.If) and isinstance(i.test, ast.Compare) and norm(i.test.left) == 'tlv_t'
+              and isinstance(i.test.ops[0], ast.Eq) and try_const(i.test.comparators[0]) == 3]
+        okk = len(br) == 1 and isinstance(last_live(br[0].body), ast.Break) and \
+            any(isinstance(x, ast.Assign) and norm(x) == 'ndef = tlv_v' for x in live(br[0].body)) and \
+            not any(isinstance(x, (ast.If, ast.While, ast.For, ast.Try)) for x in live(br[0].body))
+        report.check(okk, 'C02-R1', key(q, 'the first NDEF message TLV ends the TLV walk'), f.loc(br[0]) if br else f.loc(),
+                     '%s does not stop at the first NDEF message TLV: after an interrupted write (length still zero) the remnants behind it are '
+                     'parsed and can be presented as a message' % q)
+
+
 def run(report, prog, tier):
     rule_t12(report, prog)
+    rule_first_ndef_tlv(report, prog)
     rule_writeback(report, prog)
+    from .c01 import rule_tt2_memory_units
+    rule_tt2_memory_units(report, prog, rule='C02-R3')
     rule_t3(report, prog)
     rule_t4(report, prog)
     rule_read_is_pure(report, prog)
@@ -253,6 +273,16 @@ def run(report, prog, tier):
 
 
 MUTANTS = [
+    ('tt2-reader-walks-past-empty-ndef-tlv', 'nfc.tag.tt2', """                elif tlv_t == 3:
+                    ndef = tlv_v
+                    break""", """                elif tlv_t == 3:
+                    ndef = tlv_v
+                    if tlv_l > 0:
+                        break""", 'C02-R1'),
+    ('tt2-flush-sector-select-conditional', 'nfc.tag.tt2', """                self._tag.sector_select(index >> 10)
+                self._tag.write(index >> 2, data)""", """                if index >> 10:
+                    self._tag.sector_select(index >> 10)
+                self._tag.write(index >> 2, data)""", 'C02-R3'),
     ('tt3-reader-clears-write-flag', 'nfc.tag.tt3', """            if attributes['nbr'] == 0:
                 log.debug("number of blocks for read is zero")""", """            if attributes['writef'] != 0:
                 attributes['writef'] = 0
